@@ -260,6 +260,7 @@ static void inpl_case_fn(uint64_t idx, void *ctx)
 int main(int argc, char **argv)
 {
     mc_init("C13", argc, argv);
+    libast_debug_level = (unsigned) mc_dlevel();        /* --dlevel=N: the whole run at runtime debug level N (default 0) */
     L = (int) mc_arg_int("L", mc_thorough() ? 7 : 4);
     if (L > 9) L = 9;
     mc_info("alphabet", "in-place: {a,Z,space,tab,newline,0x01,0xE9}^<=%d; strncpy/strncat: size -1..%d, src 0..%d, dest prefix 0..size+1; substr: len<=%d, idx,cnt in [-%d,%d]",
